@@ -39,7 +39,7 @@ def fmtSuffix : Suffix → String
   | .index => "index" | .indexTmp => "_index" | .indexDel => "index.del" | .metaF => "meta"
 
 def fmtOutcome : Outcome → String
-  | .unknown => "unknown" | .cleaned => "cleaned" | .skipped => "skipped" | .fatal => "fatal"
+  | .unknown => "unknown" | .cleaned => "cleaned" | .skipped => "skipped" | .orphan => "orphan"
   | .sealed s => "sealed:" ++ fmtSuffix s | .active => "active"
 
 def fmtLoaded : Loaded → String
@@ -49,6 +49,8 @@ def fmtServed : Served → String
   | .all => "all" | .part => "part" | .none => "none" | .down => "down"
 
 def fmtOp : Op → String
+  | .touch s => "touch:" ++ fmtSuffix s
+  | .fill => "fill"
   | .create s => "create:" ++ fmtSuffix s
   | .write s => "write:" ++ fmtSuffix s
   | .lose s => "lose:" ++ fmtSuffix s
@@ -83,12 +85,12 @@ def step (line : String) : String :=
   | ["startup", fs] =>
     match fs? fs with
     | some fs =>
-      let r := startup fs
-      s!"ok {fmtOutcome (classify fs)} {fmtLoaded r.1} left={fmtFs r.2} served={fmtServed (served fs)}"
+      let r := startup SV.Extracted.C08.orphanFatal fs
+      s!"ok {fmtOutcome (classify fs)} {fmtLoaded r.1} left={fmtFs r.2} served={fmtServed (served SV.Extracted.C08.orphanFatal fs)}"
     | none => "bad-op"
   | ["load", fs] =>
     match fs? fs with
-    | some fs => let r := startup fs; s!"ok {fmtLoaded r.1} left={fmtFs r.2}"
+    | some fs => let r := startup SV.Extracted.C08.orphanFatal fs; s!"ok {fmtLoaded r.1} left={fmtFs r.2}"
     | none => "bad-op"
   | ["writeidx", f, p, oi] =>
     match facts? f, plan? p, bits? oi with
@@ -109,7 +111,7 @@ def step (line : String) : String :=
       let r := sealTrace ⟨skip, keep⟩ f p oi os
       let sts := statesAlong r.2 ⟨fs0, []⟩
       let render (fs : FileSet) : String := if cmd = "crash" then (fmtFs fs).map (fun c => if c = 'a' then 'a' else 'p') else fmtFs fs
-      s!"ok {fmtList (fun (st : St) => render st.fs ++ ":" ++ fmtServed (served st.fs)) sts ";"}"
+      s!"ok {fmtList (fun (st : St) => render st.fs ++ ":" ++ fmtServed (served SV.Extracted.C08.orphanFatal st.fs)) sts ";"}"
     | _, _, _, _, _, _, _ => "bad-op"
   | _ => "bad-op"
 
